@@ -87,10 +87,21 @@ def project(lines):
 
 def execute(behs, name, nchunks=8):
     w = vlib.workdir(name)
-    vlib.write_ndjson(w / "behs.ndjson", behs)
     bins = vlib.cargo_build(["logbridge"], package="vh-log", workspace=VERIF / "harness-log", target="../harness/target-log")
-    vlib.run_bin(bins["logbridge"], env={"VH_IN": w / "behs.ndjson", "VH_OUT": w / "trace.ndjson"}, timeout=1800)
-    lines = project(vlib.read_ndjson(w / "trace.ndjson"))
+    binsa = vlib.cargo_build(["logbridge"], package="vh-logalways", workspace=VERIF / "harness-logalways", target="../harness/target-logalways")
+    lines = []
+    # behaviours marked `always` run in the build with tracing's log-always feature
+    for tag, exe, part in (("", bins["logbridge"], [b for b in behs if not b.get("always")]), ("a", binsa["logbridge"], [b for b in behs if b.get("always")])):
+        if not part:
+            continue
+        vlib.write_ndjson(w / ("behs%s.ndjson" % tag), part)
+        vlib.run_bin(exe, env={"VH_IN": w / ("behs%s.ndjson" % tag), "VH_OUT": w / ("trace%s.ndjson" % tag)}, timeout=1800)
+        idx = [i for i, b in enumerate(behs) if bool(b.get("always")) == (tag == "a")]
+        for x in vlib.read_ndjson(w / ("trace%s.ndjson" % tag)):
+            if x.get("ev") == "reset":
+                x["beh"] = idx[x["beh"]]
+            lines.append(x)
+    lines = project(lines)
     found, results = trace.validate(D, "LogBridgeTrace", lines, name, nchunks=nchunks, jobs=nchunks, tags=("BAD",), timeout=2400)
     return lines, found, results
 
@@ -137,6 +148,11 @@ def run(out, tier):
     # sweep: every callsite of the corpus once in a process that never installs a collector
     for k in range(0, len(ids), 60):
         behs.append({"mode": "t2l", "steps": [site_step(rng, sites, i) for i in ids[k:k + 60]]})
+    # the same histories in the log-always build: records whatever is installed, and no expression evaluated twice
+    for _ in range(16 if quick else 200):
+        behs.append(dict(gen_t2l(rng, sites, ids), always=True))
+    for k in range(0, len(ids), 150):
+        behs.append({"mode": "t2l", "always": True, "steps": [{"op": "scoped_on"}] + [site_step(rng, sites, i) for i in ids[k:k + 150]]})
     lines, found, results = execute(behs, "c18", nchunks=8 if quick else 14)
     judge(out, behs, sites, found)
     out.traces = len(behs)
